@@ -36,12 +36,14 @@ SingleMut == {<<"add_node", n>> : n \in NodeIds}
              \cup {<<"add_destination", d, n>> : d \in DestIds, n \in NodeIds}
 ReadCalls == {<<"read", k>> : k \in Lookups} \cup {<<"is_valid">>}
 ViewCalls == {<<"out_links", n>> : n \in NodeIds} \cup {<<"in_links", n>> : n \in NodeIds}
-BulkCalls == {<<"add_nodes", <<"n1", "n2">>>>, <<"add_nodes", <<"n3", "n1">>>>,
-              <<"add_links", <<<<"n1", "l1", "n2">>, <<"n2", "l2", "n3">>>>>>,
+\* (the calls that mention a third node only exist in universes that have one)
+Has3 == "n3" \in NodeIds
+BulkCalls == {<<"add_nodes", <<"n1", "n2">>>>,
               <<"add_links", <<<<"n1", "l1", "n2">>, <<"n1", "l2", "n2">>>>>>,
               <<"add_links", <<<<"n2", "l1", "n1">>, <<"n2", "l1", "n2">>>>>>}
+             \cup (IF Has3 THEN {<<"add_nodes", <<"n3", "n1">>>>, <<"add_links", <<<<"n1", "l1", "n2">>, <<"n2", "l2", "n3">>>>>>} ELSE {})
 FewPaths == {<<"add_path", <<"n1", "l1", "n2">>, "o1", "d1">>,
-             <<"add_path", <<"n1", "l1", "n2", "l2", "n3">>, "", "">>,
+             <<"add_path", <<"n1", "l1", "n2", "l2", IF Has3 THEN "n3" ELSE "n1">>, "", "">>,
              <<"add_path", <<"n2", "l2", "n1">>, "r1", "">>,
              <<"add_path", <<"n1", "l1">>, "", "d1">>,
              <<"add_path", <<"n1", "l1">>, "o1", "">>,
